@@ -75,7 +75,8 @@ def channels_for(kind: str, r) -> List[str]:
     if kind == "generic":
         return [f"ch{i}" for i in range(r.randint(1, 3))]
     if kind == "binance":
-        pool = ["trade:BTCUSDT", "trade:ETHUSDT", "user:spot", "user:cross", "user:isolated:BTCUSDT", "book:BTCUSDT"]
+        pool = ["trade:BTCUSDT", "trade:ETHUSDT", "user:spot", "user:cross", "user:isolated:BTCUSDT", "book:BTCUSDT",
+                "kline:ETHUSDT"]
         return r.sample(pool, r.randint(1, 4)) if r.random() < 0.8 else ["user:spot"]
     if kind == "bitstamp_public":
         return r.sample(["live_trades_btcusd", "live_trades_ethusd", "order_book_btcusd", "live_orders_btcusd"], r.randint(1, 3))
@@ -229,6 +230,10 @@ class BinanceAdapter(Adapter):
             p = Pair(parts[1][:-4], "USDT")
             self.ex.subscribe_to_trade_events(p, self.sink(ch))
             self.stream_of[ch] = parts[1].lower() + "@trade"
+        elif parts[0] == "kline":
+            p = Pair(parts[1][:-4], "USDT")
+            self.ex.subscribe_to_bar_events(p, "1m", self.sink(ch))
+            self.stream_of[ch] = parts[1].lower() + "@kline_1m"
         elif parts[0] == "book":
             p = Pair(parts[1][:-4], "USDT")
             self.ex.subscribe_to_order_book_events(p, self.sink(ch))
@@ -288,6 +293,11 @@ class BinanceAdapter(Adapter):
         if chan.startswith("trade:"):
             return {"stream": self.stream_of[chan], "data": {"e": "trade", "E": 1700000000000, "s": chan[6:], "t": uid,
                                                               "p": "1", "q": "1", "b": 1, "a": 2, "T": 1700000000000}}
+        if chan.startswith("kline:"):
+            # the message id travels in the volume field of the closed kline
+            return {"stream": self.stream_of[chan], "data": {"e": "kline", "E": 1700000000000, "s": chan[6:], "k": {
+                "t": 1700000000000, "T": 1700000059999, "s": chan[6:], "i": "1m", "o": "1", "c": "1", "h": "1", "l": "1",
+                "v": str(uid), "x": True}}}
         if chan.startswith("book:"):
             return {"stream": self.stream_of[chan], "data": {"lastUpdateId": uid, "bids": [["1", "1"]], "asks": [["2", "1"]]}}
         key = self.current_key(ws, chan)
@@ -300,6 +310,8 @@ class BinanceAdapter(Adapter):
             return int(ev.trade.id)
         if hasattr(ev, "order_book"):
             return ev.order_book.json.get("lastUpdateId")
+        if hasattr(ev, "bar"):
+            return int(ev.bar.volume)
         return getattr(ev, "json", {}).get("uid")
 
 
